@@ -340,3 +340,214 @@ Proof.
     replace (ladv - (le_line_base l + (Z.of_N special - 13)))%Z with ladv by lia.
     reflexivity.
 Qed.
+
+(* ------------------------------------------------------------------ exactness of the range: refutations *)
+
+(* checked builds: for every line_range >= 128 the debug assertion of generate_row fails (the sum is
+   negative or overflows i8) — whatever the advances *)
+Lemma advance_debug_panics_above_127 l ladv oadv :
+  enc_ok l -> (128 <= le_line_range l)%N -> advance_insns true l ladv oadv = Panic.
+Proof.
+  intros (Hb & Hr & Hr255 & _) H128. unfold advance_insns, adv_debug_asserts.
+  destruct (Z.leb_spec (le_line_base l) 0) as [_|Hc]; [|lia]. cbn [negb].
+  assert (E8 : to_i8 (le_line_range l) = (Z.of_N (le_line_range l) - 256)%Z).
+  { unfold to_i8, to_signed, wrapN. rewrite pow8. change (2 ^ (8 - 1))%N with 128%N.
+    rewrite N.mod_small by lia. destruct (N.ltb_spec (le_line_range l) 128); [lia|].
+    change (Z.of_N 256) with 256%Z. reflexivity. }
+  rewrite E8. unfold chk_s.
+  destruct (in_signed 8 (le_line_base l + (Z.of_N (le_line_range l) - 256))); cbn [bind]; [|reflexivity].
+  destruct (Z.leb_spec 0 (le_line_base l + (Z.of_N (le_line_range l) - 256))) as [Hc|_]; [lia|reflexivity].
+Qed.
+
+(* unchecked builds: for every line_range >= 244 the line advance 243 + line_base (no address advance)
+   makes the writer emit the byte 0 — not a special opcode at all *)
+Lemma advance_release_wrong_above_243 l :
+  enc_ok l -> (244 <= le_line_range l)%N ->
+  advance_insns false l (243 + le_line_base l) 0 = Ok [ISpecial 0].
+Proof.
+  intros Hok H244. pose proof (special_default_val l Hok) as Hdef.
+  destruct Hok as (Hb & Hr & Hr255 & _).
+  unfold advance_insns, adv_debug_asserts. cbn [bind].
+  unfold adv_line_stage.
+  destruct (Z.eqb_spec (243 + le_line_base l) 0) as [Hc|_]; [lia|]. cbn [negb].
+  assert (Esl : Z.of_N (wrap64 (of_i64 (243 + le_line_base l) + two64 - of_i64 (le_line_base l)))
+                = ((243 + le_line_base l - le_line_base l) mod 18446744073709551616)%Z)
+    by (apply wrapping_sub_i64; lia).
+  set (sl := wrap64 (of_i64 (243 + le_line_base l) + two64 - of_i64 (le_line_base l))) in *.
+  assert (Hsl : sl = 243%N) by lia. rewrite Hsl.
+  destruct (N.ltb_spec 243 (le_line_range l)) as [_|Hc]; [|lia].
+  rewrite chk_add64_ok by (unfold OPCODE_BASE; lia). cbn [bind].
+  unfold adv_op_stage. cbn [N.eqb negb bind]. unfold adv_final.
+  unfold OPCODE_BASE. change (13 + 243)%N with 256%N.
+  destruct (N.eqb_spec 256 (special_default l)) as [Hc|_]; [lia|]. cbn [andb negb bind].
+  reflexivity.
+Qed.
+
+(* concrete witnesses (vm_compute) *)
+Definition lenc_244 : lenc := mkLenc 1 1 true (-1) 244.
+Lemma advance_refuted_244 :
+  enc_ok lenc_244 /\ advance_insns false lenc_244 242 0 = Ok [ISpecial 0] /\ ~ Forall special_ok [ISpecial 0%N].
+Proof.
+  split; [unfold enc_ok, lenc_244; cbn; lia|]. split; [vm_compute; reflexivity|].
+  intros H. inversion H as [|x xs Hx _]. cbn in Hx. lia.
+Qed.
+
+(* the operation advance outside the writer's arithmetic range: op_advance * line_range overflows u64.
+   Debug builds panic; release builds wrap and fold a wrong advance into a special opcode. *)
+Definition lenc_100 : lenc := mkLenc 1 1 true (-1) 100.
+Definition big_oadv : N := 184467440737095517.   (* 2^64 / 100 + 1 *)
+Lemma advance_refuted_mul_overflow :
+  enc_ok lenc_100 /\ range_ok false lenc_100 /\
+  advance_insns true lenc_100 0 big_oadv = Panic /\
+  advance_insns false lenc_100 0 big_oadv = Ok [ISpecial 98] /\
+  fst (run (params_of lenc_100) (map (denote 4) [ISpecial 98]) (init_regs (params_of lenc_100)))
+    <> [op_adv (params_of lenc_100) (Z.of_N big_oadv) (init_regs (params_of lenc_100))].
+Proof.
+  split; [unfold enc_ok, lenc_100; cbn; lia|]. split; [unfold range_ok, lenc_100; cbn; lia|].
+  split; [vm_compute; reflexivity|]. split; [vm_compute; reflexivity|].
+  vm_compute. intros H. discriminate H.
+Qed.
+
+(* ------------------------------------------------------------------ LineProgram::new (F9) *)
+
+(* the documented precondition is `line_base <= 0 < line_base + line_range`; the code compares
+   `line_base + line_range as i8`, so checked builds reject EVERY line_range >= 128 *)
+Lemma new_debug_panics_above_127 e l wd sd sf info :
+  enc_ok l -> (128 <= le_line_range l)%N -> lp_new true e l wd sd sf info = Panic.
+Proof.
+  intros (Hb & Hr & Hr255 & _) H128. unfold lp_new.
+  destruct (Z.leb_spec (le_line_base l) 0) as [_|Hc]; [|lia]. cbn [negb].
+  assert (E8 : to_i8 (le_line_range l) = (Z.of_N (le_line_range l) - 256)%Z).
+  { unfold to_i8, to_signed, wrapN. rewrite pow8. change (2 ^ (8 - 1))%N with 128%N.
+    rewrite N.mod_small by lia. destruct (N.ltb_spec (le_line_range l) 128); [lia|].
+    change (Z.of_N 256) with 256%Z. reflexivity. }
+  rewrite E8. unfold chk_s.
+  destruct (in_signed 8 (le_line_base l + (Z.of_N (le_line_range l) - 256))); cbn [bind]; [|reflexivity].
+  destruct (Z.ltb_spec 0 (le_line_base l + (Z.of_N (le_line_range l) - 256))) as [Hc|_]; [lia|reflexivity].
+Qed.
+
+(* release builds: the wrapped sum is positive exactly when line_base + line_range < 128 *)
+Lemma new_release_assert_above_127 e l wd sd sf info :
+  enc_ok l -> (128 <= le_line_range l)%N -> (128 <= le_line_base l + Z.of_N (le_line_range l))%Z ->
+  lp_new false e l wd sd sf info = Panic.
+Proof.
+  intros (Hb & Hr & Hr255 & _) H128 Hsum. unfold lp_new.
+  destruct (Z.leb_spec (le_line_base l) 0) as [_|Hc]; [|lia]. cbn [negb].
+  assert (E8 : to_i8 (le_line_range l) = (Z.of_N (le_line_range l) - 256)%Z).
+  { unfold to_i8, to_signed, wrapN. rewrite pow8. change (2 ^ (8 - 1))%N with 128%N.
+    rewrite N.mod_small by lia. destruct (N.ltb_spec (le_line_range l) 128); [lia|].
+    change (Z.of_N 256) with 256%Z. reflexivity. }
+  rewrite E8. rewrite chk_s8_ok by lia. cbn [bind].
+  destruct (Z.ltb_spec 0 (le_line_base l + (Z.of_N (le_line_range l) - 256))) as [Hc|_]; [lia|reflexivity].
+Qed.
+
+(* the assertions of `new` pass for every documented encoding with line_range <= 127 *)
+Lemma new_asserts_pass dbg l :
+  enc_ok l -> (le_line_range l <= 127)%N ->
+  (le_line_base l <=? 0)%Z = true /\
+  exists s, chk_s 8 dbg (le_line_base l + to_i8 (le_line_range l)) = Ok s /\ (0 <? s)%Z = true.
+Proof.
+  intros (Hb & Hr & _) H127. split; [apply Z.leb_le; lia|].
+  rewrite to_i8_small by lia. exists (le_line_base l + Z.of_N (le_line_range l))%Z.
+  split; [apply chk_s8_ok; lia | apply Z.ltb_lt; lia].
+Qed.
+
+Definition lenc_f9 : lenc := mkLenc 1 1 true (-3) 200.
+Lemma new_refuted_F9 : enc_ok lenc_f9 /\
+  forall dbg e wd sd sf info, lp_new dbg e lenc_f9 wd sd sf info = Panic.
+Proof.
+  split; [unfold enc_ok, lenc_f9; cbn; lia|].
+  intros [] e wd sd sf info; reflexivity.
+Qed.
+
+(* ------------------------------------------------------------------ row_fields *)
+
+(* the file number a FileId is written as (FileId::raw) *)
+Definition raw (ver : N) (f : N) : Z := Z.of_N (if (ver <=? 4)%N then f + 1 else f)%N.
+
+(* the writer's picture of the reader (prev_row) agrees with the reader's registers *)
+Definition synced (ver : N) (prev : wrow) (r : regs) : Prop :=
+  r_op_index r = Z.of_N (w_op_index prev) /\ r_file r = raw ver (w_file prev) /\
+  r_line r = Z.of_N (w_line prev) /\ r_column r = Z.of_N (w_column prev) /\
+  r_is_stmt r = w_is_statement prev /\ r_isa r = Z.of_N (w_isa prev) /\
+  r_discriminator r = 0%Z /\ r_basic_block r = false /\ r_prologue_end r = false /\
+  r_epilogue_begin r = false /\ r_end_sequence r = false.
+
+(* registers after the field instructions of a row: every non-address field is the row's *)
+Definition fields_set (ver : N) (row : wrow) (r : regs) : regs :=
+  mkRegs (r_address r) (r_op_index r) (raw ver (w_file row)) (r_line r) (Z.of_N (w_column row))
+         (w_is_statement row) (w_basic_block row) false (w_prologue_end row) (w_epilogue_begin row)
+         (Z.of_N (w_isa row)) (Z.of_N (w_discriminator row)).
+
+Lemma row_fields ver p row prev r : synced ver prev r ->
+  run p (map (denote ver) (field_insns row prev)) r = ([], fields_set ver row r).
+Proof.
+  intros H. unfold synced in H. unfold field_insns, fields_set.
+  destruct r as [addr opi file line col stmt bb es pe eb isa disc].
+  destruct row as [rao ropi rfile rline rcol rdisc rstmt rbb rpe reb risa].
+  destruct prev as [pao popi pfile pline pcol pdisc pstmt pbb ppe peb pisa].
+  cbn in H. destruct H as (-> & -> & -> & -> & -> & -> & -> & -> & -> & -> & ->).
+  cbn [w_address_offset w_op_index w_file w_line w_column w_discriminator w_is_statement w_basic_block
+       w_prologue_end w_epilogue_begin w_isa r_address r_op_index r_line].
+  destruct (N.eqb_spec rdisc 0) as [->|?]; destruct rbb; destruct rpe; destruct reb;
+  destruct rstmt; destruct pstmt;
+  destruct (N.eqb_spec rfile pfile) as [->|?]; destruct (N.eqb_spec rcol pcol) as [->|?];
+  destruct (N.eqb_spec risa pisa) as [->|?]; reflexivity.
+Qed.
+
+(* each persistent register is set iff it differs from the writer's picture of the reader *)
+Lemma field_insns_set_file row prev f :
+  In (ISetFile f) (field_insns row prev) <-> (f = w_file row /\ w_file row <> w_file prev).
+Proof.
+  unfold field_insns.
+  repeat rewrite in_app_iff.
+  destruct (N.eqb_spec (w_discriminator row) 0); destruct (w_basic_block row); destruct (w_prologue_end row);
+  destruct (w_epilogue_begin row); destruct (Bool.eqb (w_is_statement row) (w_is_statement prev));
+  destruct (N.eqb_spec (w_file row) (w_file prev)); destruct (N.eqb_spec (w_column row) (w_column prev));
+  destruct (N.eqb_spec (w_isa row) (w_isa prev)); cbn; split; intros H;
+  repeat (destruct H as [H|H]; try discriminate H; try contradiction);
+  try (injection H as <-; split; [reflexivity | assumption]);
+  try (destruct H as [-> Hne]; try contradiction; tauto).
+Qed.
+
+Lemma field_insns_set_column row prev c :
+  In (ISetColumn c) (field_insns row prev) <-> (c = w_column row /\ w_column row <> w_column prev).
+Proof.
+  unfold field_insns.
+  repeat rewrite in_app_iff.
+  destruct (N.eqb_spec (w_discriminator row) 0); destruct (w_basic_block row); destruct (w_prologue_end row);
+  destruct (w_epilogue_begin row); destruct (Bool.eqb (w_is_statement row) (w_is_statement prev));
+  destruct (N.eqb_spec (w_file row) (w_file prev)); destruct (N.eqb_spec (w_column row) (w_column prev));
+  destruct (N.eqb_spec (w_isa row) (w_isa prev)); cbn; split; intros H;
+  repeat (destruct H as [H|H]; try discriminate H; try contradiction);
+  try (injection H as <-; split; [reflexivity | assumption]);
+  try (destruct H as [-> Hne]; try contradiction; tauto).
+Qed.
+
+Lemma field_insns_set_isa row prev c :
+  In (ISetIsa c) (field_insns row prev) <-> (c = w_isa row /\ w_isa row <> w_isa prev).
+Proof.
+  unfold field_insns.
+  repeat rewrite in_app_iff.
+  destruct (N.eqb_spec (w_discriminator row) 0); destruct (w_basic_block row); destruct (w_prologue_end row);
+  destruct (w_epilogue_begin row); destruct (Bool.eqb (w_is_statement row) (w_is_statement prev));
+  destruct (N.eqb_spec (w_file row) (w_file prev)); destruct (N.eqb_spec (w_column row) (w_column prev));
+  destruct (N.eqb_spec (w_isa row) (w_isa prev)); cbn; split; intros H;
+  repeat (destruct H as [H|H]; try discriminate H; try contradiction);
+  try (injection H as <-; split; [reflexivity | assumption]);
+  try (destruct H as [-> Hne]; try contradiction; tauto).
+Qed.
+
+Lemma field_insns_negate row prev :
+  In INegateStatement (field_insns row prev) <-> w_is_statement row <> w_is_statement prev.
+Proof.
+  unfold field_insns.
+  repeat rewrite in_app_iff.
+  destruct (N.eqb_spec (w_discriminator row) 0); destruct (w_basic_block row); destruct (w_prologue_end row);
+  destruct (w_epilogue_begin row); destruct (w_is_statement row); destruct (w_is_statement prev);
+  destruct (N.eqb_spec (w_file row) (w_file prev)); destruct (N.eqb_spec (w_column row) (w_column prev));
+  destruct (N.eqb_spec (w_isa row) (w_isa prev)); cbn; split; intros H;
+  repeat (destruct H as [H|H]; try discriminate H; try contradiction);
+  try congruence; try tauto; try (right; tauto).
+Qed.
+
